@@ -471,7 +471,29 @@ def run_word_ops(ctx):
         req(ctx, rule, "%s:%s" % (rule, f.id), good, "Field255::from(u64) decodes the little-endian bytes without masking", "Field255::from(u64) masks", loc=f.loc)
     except Skip:
         pass
-    ctx.floor(rule, 9)
+    # Field255 -> u64: the bytes not taken into the result are all checked to be zero, and the split point is 8 bytes
+    try:
+        f = ctx.fn(rule, name="try_from", id_re=r"TryFrom<field::field255::Field255> for u64>::try_from$")
+        g = ctx.guards(f)
+        acc = g.accept_defs(("err",))
+        K = "%s:%s" % (rule, f.id)
+        good = False
+        if len(acc) == 1 and acc[0].payload is not None:
+            pay = acc[0].payload
+            took = [x for x in walk(pay) if Call("index", AnyLocal(), Agg("RangeTo", Any()))(x)]
+            if Call("from_le_bytes")(strip(pay)) and len(took) == 1:
+                buf, k = took[0][2][0], took[0][2][1][2][0]
+                tb = [c for bi, c in calls_named(ctx, f, "fiat_25519_to_bytes")]
+                rest = Call("index", Same(buf), Agg("RangeFrom", Same(k)))
+                ref = [e for e in g.edges if e.cond[0] == "rel" and e.cond[1] == "Ne" and len(e.cond) > 4 and (rest(e.cond[2]) or rest(e.cond[3]))
+                       and set(rd.kind for rd in e.leads) == {"err"} and g.dominates_accepts(e)]
+                kv = int(k[2]) if k[0] == "symlit" else (k[1] if k[0] == "lit" else None)
+                good = len(tb) == 1 and tb[0][2][0] == buf and Field(Local(1), "0")(tb[0][2][1]) and len(ref) == 1 and kv == 8
+        req(ctx, rule, K, good, "u64::from_le_bytes(bytes[..8]) after refusing unless bytes[8..] == 0 (all 32 canonical bytes are either used or checked)",
+            "Field255 -> u64 does not check every byte beyond the first 8 to be zero", loc=f.loc)
+    except Skip:
+        pass
+    ctx.floor(rule, 10)
 
 
 def run(ctx):
